@@ -818,14 +818,28 @@ func (vc *VC) evalCall(env *Env, t CCall) Term {
 		}
 		return tBool(fmt.Sprintf("(and (>= %s %s) (= (refkind %s) 0) (= (rootof %s) %s))", ref, oa.S, ref, ref, ref))
 	case "atlabel":
-		// atlabel(L, e): e evaluated in the state recorded by `label L at call ...` (must dominate this point)
+		// atlabel(L, e): e evaluated in the state recorded by `label L at call ...`. Where the label has not been
+		// passed (reached(L) is false there) the value is unspecified: e is evaluated in the current state.
 		id, ok := t.Args[0].(CIdent)
-		if !ok || env.fr == nil || env.fr.labels == nil || env.fr.labels[id.Name] == nil {
-			vc.unsup("atlabel(): unknown or not yet reached label")
+		if !ok || env.fr == nil || !env.fr.spec.hasLabel(id.Name) {
+			vc.unsup("atlabel(): unknown label")
+		}
+		if env.fr.labels == nil || env.fr.labels[id.Name] == nil {
+			return vc.evalTerm(env, t.Args[1])
 		}
 		n := *env
 		n.cur = env.fr.labels[id.Name]
 		return vc.evalTerm(&n, t.Args[1])
+	case "reached":
+		// reached(L): the execution passed the program point labelled L (in this iteration of the enclosing loop)
+		id, ok := t.Args[0].(CIdent)
+		if !ok || env.fr == nil || !env.fr.spec.hasLabel(id.Name) {
+			vc.unsup("reached(): unknown label")
+		}
+		if pc, ok := env.fr.labelPC[id.Name]; ok {
+			return tBool(pc)
+		}
+		return tBool("false")
 	case "pre":
 		// pre(e): e evaluated in the state in which the current loop was entered
 		li := vc.curLoop(env)
